@@ -313,12 +313,13 @@ Definition rewrite_race (c : cfg) (now : N) (d : db) (bk fid nseq : N) (batch : 
 Definition init_db (c : cfg) (memid : N) : db :=
   {| d_lsm := init memid; d_vl := repeat empty_bucket (N.to_nat (N.max 1 (c_nb c))) |}.
 
-(** Close + Open: valueLog.open replays every file; a sealed file without a
-    single record is removed (utils.ErrDeleteVlogFile). The LSM side is [Lsm.reopen]. *)
-Definition reopen_bucket (b : bucket) : bucket :=
-  {| b_files := filter (fun f => (vf_fid f =? b_active b) || negb (match vf_recs f with [] => true | _ => false end)) (b_files b);
-     b_active := b_active b; b_off := b_off b |}.
-Definition db_reopen (d : db) : db := {| d_lsm := reopen (d_lsm d); d_vl := map reopen_bucket (d_vl d) |}.
+(** Close + Open: valueLog.open replays every file.  After a clean close every
+    sealed file was truncated to its written size by DoneWriting, so replay ends
+    exactly at the file size and no file is dropped - not even a sealed file
+    without records (only a replay that stops before the end of a sealed file
+    at the header leads to utils.ErrDeleteVlogFile; that is crash recovery,
+    properties C10/C11).  The LSM side is [Lsm.reopen]. *)
+Definition db_reopen (d : db) : db := {| d_lsm := reopen (d_lsm d); d_vl := d_vl d |}.
 
 (** * GC against a concurrent writer (schedules on Base/Sched.v)
 
